@@ -78,8 +78,8 @@ func Unit(res *vc.UnitResult, opt Options) ([]Status, error) {
 	if len(res.Obligations) == 0 {
 		return out, nil
 	}
-	if len(res.Obligations) > 4000 {
-		return nil, fmt.Errorf("%s generates %d obligation instances (cap 4000): the function is outside the reach of path enumeration; restrict the unit (opt stopafter) or drop its contract", res.Unit, len(res.Obligations))
+	if len(res.Obligations) > 8000 {
+		return nil, fmt.Errorf("%s generates %d obligation instances (cap 8000): the function is outside the reach of path enumeration; restrict the unit (opt stopafter) or drop its contract", res.Unit, len(res.Obligations))
 	}
 	if len(res.Header) > 8<<20 {
 		return nil, fmt.Errorf("SMT header of %s exceeds the 8 MB cap (%d bytes)", res.Unit, len(res.Header))
